@@ -12,11 +12,10 @@ From DW Require Import PyStr StrConv EnvModel EnvSpec EnvProofs T_LetterCase.
    specification is deterministic (no two variables with the same cleaned name compete) the result
    EQUALS `ref_resolve`; elsewhere it is ONE OF the admitted sources (the implementation's choice
    depends on set iteration order).  The invariant and environ are preserved.
-   Hypothesis `safe_field`: excludes the region of the open defect F37 (non-empty prefix together
-   with a tuple of candidate names), refuted below. *)
+   Unconditional since the F37 repair (prefix applied to each of several candidate names). *)
 Theorem C18_pure :
   forall st e p prefix kw fs,
-  EnvInv st -> environ st = Some e -> forallb (safe_field prefix) fs = true ->
+  EnvInv st -> environ st = Some e ->
   Forall2 (adm e) (snd (resolve_fields st p prefix kw fs)) (map (ref_field e p prefix kw) fs) /\
   (deterministic e p prefix kw fs = true ->
    snd (resolve_fields st p prefix kw fs) = ref_resolve e p prefix kw fs) /\
@@ -50,7 +49,7 @@ Print Assumptions C18_invariant.
    and os.environ afterwards is still exactly the user's edits. *)
 Theorem C18_reload :
   forall os0 h c a,
-  a_reload a = true -> safe_cls c a = true ->
+  a_reload a = true ->
   let st := run (init_state os0) h in
   let e := overlay (user_edits os0 h) (eff_secrets c a) (eff_dotenv c a) in
   adm_outcome e c a (snd (instantiate st c a)) /\
@@ -73,7 +72,7 @@ Print Assumptions C18_overlay_value.
    field has no keyword, no variable and no default, and then lists ALL such fields, in field order. *)
 Theorem C18_missing_all :
   forall os0 h c a,
-  a_reload a = true -> safe_cls c a = true ->
+  a_reload a = true ->
   let st := run (init_state os0) h in
   let e := overlay (user_edits os0 h) (eff_secrets c a) (eff_dotenv c a) in
   let m := ref_missing e (c_prio c) (eff_prefix c a) (a_kwargs a) (c_fields c) in
@@ -99,18 +98,6 @@ Theorem C18_priority_table :
 Proof. exact priority_table. Qed.
 Print Assumptions C18_priority_table.
 
-(* OPEN DEFECT F37 (refutation of the full statement without `safe_cls`): prefix 'P_' and
-   x = env_field(('Q', 'A')) with default; P_A=1 is set.  The specification gives x <- P_A = "1"; the
-   model (as the code) looks up the single name  P_('Q', 'A')  and falls to the default. *)
-Theorem C18_refuted_prefix_tuple :
-  a_reload f37_args = true /\ safe_cls f37_cls f37_args = false /\
-  snd (instantiate (init_state f37_os) f37_cls f37_args) = OInstance [SDefault] /\
-  ref_resolve (overlay f37_os [] []) PScreaming (S "P_") [] (c_fields f37_cls) = [SEnv (S "P_A") (S "1")] /\
-  ~ adm_outcome (overlay f37_os (eff_secrets f37_cls f37_args) (eff_dotenv f37_cls f37_args))
-      f37_cls f37_args (snd (instantiate (init_state f37_os) f37_cls f37_args)).
-Proof. exact refuted_prefix_tuple. Qed.
-Print Assumptions C18_refuted_prefix_tuple.
-
 (* ---- non-vacuity ------------------------------------------------------------------------------- *)
 (* The F13 history (repaired by commit b4949e0): My-Var=A and myvar=B are set, E(_reload=True) touches
    cleaned_to_env, the winner is deleted from os.environ, E(_reload=True) again: the survivor is found
@@ -123,9 +110,16 @@ Definition ex_hist (del : pstr) : list op :=
 Example C18_F13_history :
   snd (instantiate (run (init_state []) (ex_hist (S "myvar"))) ex_cls ex_reload) = OInstance [SEnv (S "My-Var") (S "A")] /\
   snd (instantiate (run (init_state []) (ex_hist (S "My-Var"))) ex_cls ex_reload) = OInstance [SEnv (S "myvar") (S "B")] /\
-  safe_cls ex_cls ex_reload = true /\
   deterministic (overlay (user_edits [] (ex_hist (S "myvar"))) [] []) PScreaming [] [] (c_fields ex_cls) = true.
 Proof. repeat split; vm_compute; reflexivity. Qed.
+
+(* F37 (repaired by 466ac1d): prefix 'P_' and x = env_field(('Q', 'A', 'B')): P_A and P_B are set, P_A wins *)
+Example C18_prefix_tuple :
+  snd (instantiate (init_state [(S "P_B", S "2"); (S "P_A", S "1"); (S "A", S "10")])
+         (mkCls [mkField (S "x") (ExTuple [S "Q"; S "A"; S "B"]) true] PScreaming (S "P_") [] [])
+         (mkArgs [] true EFDefault None None))
+  = OInstance [SEnv (S "P_A") (S "1")].
+Proof. vm_compute. reflexivity. Qed.
 
 (* a state satisfying the hypotheses of C18_pure with a non-trivial cache, and a one-of region *)
 Example C18_pure_hypotheses :
